@@ -81,6 +81,7 @@ Definition a_bool (p : pk) : rm bool :=
           match ctype_of_code b with
           | Some CBooleanTrue => Ok (true, s)
           | Some CBooleanFalse => Ok (false, s)
+          | Some CStop => Ok (false, s)          (* 0: false as the protocol document spells it *)
           | _ => Err EInvalidData
           end
       end
